@@ -43,12 +43,14 @@ package coroutines
 //@ ensures err == nil && r.Kind == t_api.CreatePromiseAndTask ==> res.CreatePromiseAndTask != nil && create_post(res.CreatePromiseAndTask.Status, res.CreatePromiseAndTask.Promise, createPromiseReq)
 
 //@ func CreatePromiseAndTask
-//@ props C08
+//@ props C07 C08
 //@ serves C06
 //@ ghostdb coroutine
 //@ nopanic C13
 //@ use-contracts createPromiseAndTask
 //@ overflow C07
+// the task is born claimed by the requesting process with the lease the request asks for (C07): ttl, expiry, timeout
+//@ site call createPromiseAndTask assert taskCmd != nil && taskCmd.State == task.Claimed && taskCmd.Ttl == r.CreatePromiseAndTask.Task.Ttl && taskCmd.ProcessId != nil && *taskCmd.ProcessId == r.CreatePromiseAndTask.Task.ProcessId && taskCmd.Timeout == r.CreatePromiseAndTask.Task.Timeout && taskCmd.Id == sprintf("__invoke:%s", r.CreatePromiseAndTask.Task.PromiseId)
 //@ requires c != nil && r != nil && r.Kind == t_api.CreatePromiseAndTask && r.CreatePromiseAndTask != nil && r.CreatePromiseAndTask.Promise != nil && r.CreatePromiseAndTask.Task != nil
 //@ requires r.CreatePromiseAndTask.Promise.Id == r.CreatePromiseAndTask.Task.PromiseId && r.CreatePromiseAndTask.Promise.Timeout == r.CreatePromiseAndTask.Task.Timeout
 //@ ensures (res != nil) != (err != nil)
